@@ -32,6 +32,16 @@ def search(ck, tier, seed):
                 ck.finding("transform:constructor-fails:%s" % e["name"], "%s: %s %s" % (e["name"], t[1], t[2]), case)
                 continue
             t = t[1]
+            if s == 0:
+                # on the first seed the transform under test is a second instance, built under another seed, that received the
+                # first one's state dict: buffers drawn at construction (permutations, masks) were replaced after __init__,
+                # so anything derived from them at construction time must have followed
+                t2 = attempt(catalogue.build, e, seed + 7919)
+                if t2[0] == "ok":
+                    ld = attempt(t2[1].load_state_dict, t.state_dict())
+                    if ld[0] == "ok":
+                        t = t2[1]
+                        case["reloaded"] = True
             x, ctx = catalogue.sample_inputs(e, 5, seed + 20 + s)
             with torch.no_grad():
                 f = attempt(t.forward, x, ctx)
@@ -116,8 +126,17 @@ def search(ck, tier, seed):
                         ks = sh.knots_x(fam, params, box)
                         for k in ks:
                             interior &= (x - k).abs() > 1e-9 * scale
-                    if bool(((lad + ladi).abs()[interior] > ladtol * (1 + lad.abs()[interior])).any()):
-                        i = int(torch.nonzero(interior & ((lad + ladi).abs() > ladtol * (1 + lad.abs())))[0])
+                    # the log-abs-det is compared at two points that differ by the round-trip error in x: allow for its own
+                    # sensitivity |d logabsdet / dx| (up to 1e9 next to a knot of strongly non-uniform bins) times that error
+                    xg = x.clone().requires_grad_(True)
+                    rg = sh.call(fam, False, xg, params, box=box)
+                    sens = torch.zeros_like(x)
+                    if rg[0] == "ok" and rg[1][1].requires_grad:
+                        sens = torch.autograd.grad(rg[1][1].sum(), xg, allow_unused=True)[0]
+                        sens = torch.zeros_like(x) if sens is None else sens.abs().nan_to_num(0.0, 0.0, 0.0)
+                    allowed = ladtol * (1 + lad.abs()) + 8 * sens * ((xr - x).abs() + 4e-16 * scale)
+                    if bool(((lad + ladi).abs()[interior] > allowed[interior]).any()):
+                        i = int(torch.nonzero(interior & ((lad + ladi).abs() > allowed))[0])
                         report("spline-roundtrip:logabsdet-not-negated:%s" % tag,
                                    "box %s K=%d x=%r: %r vs %r" % (box, K, float(x[i]), float(lad[i]), float(ladi[i])), case)
 
